@@ -31,6 +31,11 @@ CF smul_f(const float& s, const CF& a) { return s * a; }
 CF div_sf(const CF& a, const float& s) { return a / s; }
 CF add_sf(const CF& a, const float& s) { return a + s; }
 CF sub_sf(const CF& a, const float& s) { return a - s; }
+CF sadd_f(const float& s, const CF& a) { return s + a; }
+CF ssub_f(const float& s, const CF& a) { return s - a; }
+CF sdiv_f(const float& s, const CF& a) { return s / a; }            // real / complex is the complex division of (s + 0i)
+CT sdiv_t(const float& s, const CT& a) { return s / a; }            // ... with the Annex G treatment in ieee mode
+CT div_st(const CT& a, const float& s) { return a / s; }
 void muleq_f(CF& a, const CF& b) { a *= b; }
 void muleq_r(RF& a, const CF& b) { a *= b; }                      // compound assignment through a reference closure writes the referents
 void addeq_r(RF& a, const CF& b) { a += b; }
@@ -117,8 +122,8 @@ def build(tier, workdir, seed):
     # unit cplx: IEEE semantics of CBMC for every float operation (contracts without products in the specification);
     # unit cplx_uf: float * and / uninterpreted in code and contract (the formula contracts; multiplier miters do not finish)
     u = U('cplx', INST, select, ctext, ra, std=FpStd(), fn_alias=alias, prelude=('xv_std.h', 'xv_fp.h'), pre_defs=pd).lower(workdir)
-    REAL = ['w_add_f', 'w_sub_f', 'w_neg_f', 'w_eq_f', 'w_ne_f', 'w_add_sf', 'w_sub_sf', 'w_add_rf', 'w_addeq_r', 'w_mul_t', 'w_mul_rt', 'w_div_t', 'w_diveq_t']
-    UF = ['w_mul_f', 'w_div_f', 'w_mul_sf', 'w_smul_f', 'w_div_sf', 'w_mul_rf', 'w_muleq_f', 'w_muleq_r', 'w_mul_t', 'w_mul_rt']
+    REAL = ['w_add_f', 'w_sub_f', 'w_neg_f', 'w_eq_f', 'w_ne_f', 'w_add_sf', 'w_sub_sf', 'w_sadd_f', 'w_ssub_f', 'w_sdiv_t', 'w_add_rf', 'w_addeq_r', 'w_mul_t', 'w_mul_rt', 'w_div_t', 'w_diveq_t']
+    UF = ['w_mul_f', 'w_div_f', 'w_sdiv_f', 'w_div_st', 'w_mul_sf', 'w_smul_f', 'w_div_sf', 'w_mul_rf', 'w_muleq_f', 'w_muleq_r', 'w_mul_t', 'w_mul_rt']
     jobs = u.contract_jobs(PROP, timeout=900, inline_all=True, pre_unwind=24, aliases=REAL, extra={'w_div_t': {'cases': [('annexg', []), ('scaling', ['XV_D5'])]}})
     u2 = U('cplx_uf', INST, select, '#define XV_UF_FLOAT 1\n' + ctext, ra, std=FpStd(), fn_alias=alias, prelude=('xv_std.h', 'xv_fp.h'), pre_defs=pd, uf_mul='floatall').lower(workdir)
     jobs += u2.contract_jobs(PROP, timeout=900, inline_all=True, pre_unwind=24, aliases=UF)
